@@ -83,4 +83,13 @@ class Deduplication(UnaryOperation):
                 done=False,
                 messages=(f"{current.operation} is count-dependent",),
             )
+        if current.operation.is_order_dependent:
+            # Which of several duplicate rows survives (and hence where the
+            # surviving row ends up) depends on the order of the rows.
+            return UnaryCommutator(
+                first=None,
+                second=current.operation,
+                done=False,
+                messages=(f"{current.operation} is order-dependent",),
+            )
         return UnaryCommutator(self, current.operation)
